@@ -477,6 +477,17 @@ func gen(t *rapid.T) Scenario {
 	}
 	m := rapid.IntRange(1, 14).Draw(t, "nev")
 	base := rapid.SampledFrom(seqVals).Draw(t, "base")
+	if rapid.IntRange(0, 5).Draw(t, "backlog") == 0 {
+		// a long delayed series: one notification far ahead, then 8-80 older ones in their own
+		// (increasing) order, milliseconds apart - a backlog that a slow path delivers late
+		o := rapid.IntRange(0, n-1).Draw(t, "bobs")
+		k := rapid.IntRange(8, 80).Draw(t, "blen")
+		step := rapid.SampledFrom([]int{1, 1, 2, 7}).Draw(t, "bstep")
+		sc.Events = append(sc.Events, Event{Kind: "notify", Obs: o, Seq: (base + uint32(k*step+3)) & 0xffffff, GapMs: 1})
+		for i := 0; i < k; i++ {
+			sc.Events = append(sc.Events, Event{Kind: "notify", Obs: o, Seq: (base + uint32(i*step)) & 0xffffff, GapMs: rapid.SampledFrom([]int64{0, 1, 1, 50}).Draw(t, "bgap")})
+		}
+	}
 	for k := 0; k < m; k++ {
 		e := Event{Kind: "notify", Obs: rapid.IntRange(-1, n-1).Draw(t, "obs")}
 		if rapid.IntRange(0, 9).Draw(t, "iscancel") == 0 {
@@ -536,7 +547,7 @@ func TestCheck(t *testing.T) {
 		return f
 	})
 	r.Main(evid.Meta{
-		Rule:        "grid: ValidSequenceNumber over {0,1,2,2^23-2..2^23+2,2^24-2,2^24-1,...}^2 x time differences around 128 s against RFC 7641 3.4 written out independently. stream: a client connection (datagram and stream, in a synctest bubble) registers 1-3 observations answered with 2.05+Observe / 2.03+Observe / 2.05 without Observe / 4.04 / 5.00 / silence, then receives a generated notification stream (sequence numbers around a base with permutations and duplicates, around 0 / 2^23 / 2^24-1, random; virtual inter-arrival times 0..200 s incl. 127.999/128/128.001 s; own, other and unknown tokens; NON and CON) with Cancel (answered, refused, timed out) at generated positions; oracle: per-observation model of the last delivered (seq, time): every sequenced delivery must be fresher by 3.4; own token only; registration succeeds iff 2.05/2.03; nothing injected after Cancel returned / registration failed is delivered; a notification fresher than everything sent before on a live observation is delivered. Non-trivial = stream with a re-ordering, duplicate, wrap or > 128 s gap; distinct by scenario",
+		Rule:        "grid: ValidSequenceNumber over {0,1,2,2^23-2..2^23+2,2^24-2,2^24-1,...}^2 x time differences around 128 s against RFC 7641 3.4 written out independently. stream: a client connection (datagram and stream, in a synctest bubble) registers 1-3 observations answered with 2.05+Observe / 2.03+Observe / 2.05 without Observe / 4.04 / 5.00 / silence, then receives a generated notification stream (sequence numbers around a base with permutations and duplicates, around 0 / 2^23 / 2^24-1, random, and in a sixth of the cases a backlog of 8-80 older notifications in increasing order behind one that is far ahead; virtual inter-arrival times 0..200 s incl. 127.999/128/128.001 s; own, other and unknown tokens; NON and CON) with Cancel (answered, refused, timed out) at generated positions; oracle: per-observation model of the last delivered (seq, time): every sequenced delivery must be fresher by 3.4; own token only; registration succeeds iff 2.05/2.03; nothing injected after Cancel returned / registration failed is delivered; a notification fresher than everything sent before on a live observation is delivered. Non-trivial = stream with a re-ordering, duplicate, wrap or > 128 s gap; distinct by scenario",
 		Assumptions: []string{"notifications without an Observe option are not constrained by the freshness rule", "block-wise notifications are not generated here (C04 covers block-wise)"},
 		Floor:       300,
 	}, gridEngine(), eng)
